@@ -322,7 +322,6 @@ func runWSOnce(c WSCase) *evid.Failure {
 		for k, m := range group {
 			wants[k] = m.payload()
 		}
-		progress := 0 // only read after the goroutine finished
 		ok, pan := within(wsStepDeadline, func() {
 			for k, m := range group {
 				if errs[k] = send(m, wants[k]); errs[k] != nil {
@@ -333,7 +332,6 @@ func runWSOnce(c WSCase) *evid.Failure {
 				if gots[k], errs[k] = recv(m); errs[k] != nil {
 					return
 				}
-				progress = k + 1
 			}
 		})
 		dir := map[int]string{0: "client->server", 1: "server->client"}[group[0].Dir]
@@ -347,7 +345,6 @@ func runWSOnce(c WSCase) *evid.Failure {
 		if !ok {
 			return evid.Failf("ws-timeout:message", "messages %d..%d (%s, lengths from %d, %s)%s were not all received within %v", i, j, dir, group[0].N, howOf(group[0]), burst, wsStepDeadline)
 		}
-		_ = progress
 		for k, m := range group {
 			switch {
 			case errs[k] != nil:
@@ -634,6 +631,9 @@ func labelWSBoundary(c WSCase) {
 		evid.Label(fmt.Sprintf("ws_msg_%s_len%d", d, lenClassOf(m.N)))
 		if m.Masked {
 			evid.Label("ws_msg_masked")
+		}
+		if m.Burst {
+			evid.Label("ws_msg_burst_flag")
 		}
 		if nearBoundary(m.N) {
 			evid.Label("ws_msg_near_boundary_" + d)
